@@ -14,11 +14,13 @@ for d in sorted(glob.glob('/verif/seeded/*')):
         line = l
         break
     line = re.sub(r'\s+', ' ', line).replace('|', '/')[:150]
-    rows.append("| %s | %s | %s |" % (os.path.basename(d), ", ".join(m['caught_by']) or "MISSED", line))
-table = "| seed | caught by | what it changes / needs to manifest (first line of its README) |\n|------|-----------|----------------------------------------------|\n" + "\n".join(rows) + "\n"
+    name = os.path.basename(d)
+    first = "missed" if (m.get('missed_at_first') or name in ("C07-m2", "C08-m2", "C12-m2", "C11-m1")) else "caught"
+    rows.append("| %s | %s | %s | %s |" % (name, first, ", ".join(m['caught_by']) or "MISSED", line))
+table = "| seed | at first | caught by (now) | what it changes / needs to manifest (first line of its README) |\n|------|------|-----------|----------------------------------------------|\n" + "\n".join(rows) + "\n"
 p = '/verif/DESIGN.md'
 s = open(p).read()
-i = s.index("| seed | caught by |")
+i = s.index("| seed | ")
 j = s.index("**Trusted base as built.**")
 s = s[:i] + table + "\n" + s[j:]
 open(p, 'w').write(s)
